@@ -29,7 +29,7 @@ func init() {
 		Run:            run,
 		MinEvaluations: map[string]int{"quick": 200000, "thorough": 2000000},
 		MinNontrivial:  map[string]int{"quick": 2000, "thorough": 20000},
-		RequiredObs:    []string{"op:AddVertex", "op:RemoveVertex", "op:RemoveVertex(non-last)", "op:AddEdge", "op:RemoveEdge", "op:Copy", "op:InducedSubgraph", "mutation_after_copy_or_induced", "addvertex_reusing_backing_array", "large_histories(n crossing 64/128)"},
+		RequiredObs:    []string{"op:AddVertex", "op:RemoveVertex", "op:RemoveVertex(non-last)", "op:AddEdge", "op:RemoveEdge", "op:Copy", "op:InducedSubgraph", "mutation_after_copy_or_induced", "addvertex_reusing_backing_array", "large_histories(n crossing 64/128)", "start_graphs_with_nonunit_edge_bytes_and_dirty_spare_capacity"},
 	})
 }
 
@@ -87,18 +87,21 @@ func kindOf(msg string) string {
 }
 
 type runner struct {
-	c     *engine.Ctx
-	label string
+	c       *engine.Ctx
+	label   string
+	variant int // memory layout of the start graphs (rg.DenseVariant)
 }
 
-func newTracked(m *rg.G, viaConstructor bool) *tracked {
+// variant selects how the start graphs are laid out in memory (see rg.DenseVariant): 0 = plain, > 0 = edge bytes
+// other than 1 and spare capacity filled with garbage.
+func newTracked(m *rg.G, viaConstructor bool, variant int) *tracked {
 	t := &tracked{m: m.Copy()}
 	if viaConstructor && m.M() == 0 {
 		t.d = graph.NewDense(m.N, nil)
 		t.s = graph.NewSparse(m.N, nil)
 	} else {
-		t.d = m.Dense()
-		t.s = m.Sparse()
+		t.d = m.DenseVariant(variant)
+		t.s = m.SparseVariant(variant)
 	}
 	return t
 }
@@ -231,7 +234,14 @@ func (r *runner) observe(key string, ts []*tracked, lastKind string) (what, obse
 // runHistory executes a history; short = use the history itself as key.
 func (r *runner) runHistory(startName string, start *rg.G, viaCons bool, ops []op, keyPfx string) bool {
 	c := r.c
-	ts := []*tracked{newTracked(start, viaCons)}
+	variant := 0
+	if !viaCons {
+		variant = r.variant
+	}
+	ts := []*tracked{newTracked(start, viaCons, variant)}
+	if variant > 0 {
+		c.Obs("start_graphs_with_nonunit_edge_bytes_and_dirty_spare_capacity", 1)
+	}
 	nt := false
 	afterShare := false
 	if w, ob := r.observe(keyPfx+"|start", ts, "start"); w != "" {
@@ -372,6 +382,7 @@ func run(c *engine.Ctx) {
 					}
 					if len(seq) > 0 {
 						count++
+						r.variant = count % 3
 						if !r.runHistory(st.name, st.g, st.cons, seq, "") {
 							return
 						}
@@ -521,6 +532,7 @@ func run(c *engine.Ctx) {
 					}
 					ops = append(ops, o)
 				}
+				r.variant = i % 3
 				r.runHistory(fmt.Sprintf("seeded#%d", i), start, i%5 == 0, ops, fmt.Sprintf("seeded#%d", i))
 				if i < 2 {
 					c.Sample("seeded", map[string]interface{}{"start": start.String(), "len": len(ops), "first_ops": histString("", ops[:8])})
@@ -617,6 +629,7 @@ func largeHistories(c *engine.Ctx) {
 					ops = append(ops, o)
 				}
 				c.Obs("large_histories(n crossing 64/128)", 1)
+				r.variant = i % 2
 				r.runHistory(fmt.Sprintf("large#%d", i), start, i%3 == 0, ops, fmt.Sprintf("large#%d", i))
 				if i < 1 {
 					c.Sample("large", map[string]interface{}{"start_n": base, "start_m": start.M(), "len": len(ops), "first_ops": histString("", ops[:4])})
